@@ -289,6 +289,20 @@ def check_bounds(rng, nr):
             which = 'below-lower' if np.any(x < lbs - 1e-15) else 'above-upper'
             return dict(what='the model was evaluated at a point outside the supplied bounds', input=inp, observed=x.tolist(),
                         signature=dict(op='bounds', eval_at_boundary=eab, which=which))
+    # the same through the entry point used by solve_steady_state, for every multivariate solver that accepts (lb, initial, ub) unknowns
+    if n >= 2:
+        for solver in ('broyden_custom', 'newton_custom', 'hybr'):
+            del evaluated[:]
+            inside = lbs + nr.uniform(0.02, 0.98, size=n) * (ubs - lbs)
+            unknowns = {f'u{i}': (float(lbs[i]), float(inside[i]), float(ubs[i])) for i in range(n)}
+            try:
+                sst.solve_for_unknowns(residual, unknowns, solver, {}, constrained_kwargs={})
+            except (ValueError, RuntimeError, IndexError):
+                pass
+            for x in evaluated:
+                if np.any(x < lbs - 1e-12) or np.any(x > ubs + 1e-12):
+                    return dict(what=f'solve_for_unknowns({solver}) with bounded unknowns evaluated the model outside the bounds', input=dict(inp, solver=solver, initial=inside.tolist()), observed=np.asarray(x).tolist(),
+                                signature=dict(op='bounds-entry', solver=solver))
     return None
 
 
